@@ -4355,8 +4355,8 @@ var propPkgs = map[string][]string{
 	"C04": {"dnsserver/cache.", "ecscache.", "agdcache.", "dnsmsg.", "cmd."},
 	"C05": {"ecscache.", "geoip.", "dnsmsg.", "dnssvc/internal/ratelimitmw."},
 	"C06": {"dnsserver", "bindtodevice.", "dnsmsg.", "dnssvc/internal/mainmw.", "dnssvc/internal/ratelimitmw."},
-	"C07": {"dnsmsg.", "dnsserver", "ecscache.", "filter/hashprefix.", "dnssvc", "bindtodevice.", "agdcache.", "querylog.", "billstat."},
-	"C08": {"dnsserver.", "dnsmsg.", "ecscache.", "dnssvc/internal/mainmw."},
+	"C07": {"agd.", "dnsmsg.", "dnsserver", "ecscache.", "filter/hashprefix.", "dnssvc", "bindtodevice.", "agdcache.", "querylog.", "billstat."},
+	"C08": {"dnsserver.", "dnsmsg.", "ecscache.", "dnssvc/internal/mainmw.", "filter/internal."},
 	"C09": {"dnsserver/ratelimit.", "dnssvc/internal/ratelimitmw.", "agd.", "consul.", "backendpb.", "cmd."},
 	"C10": {"access.", "dnssvc/internal/ratelimitmw.", "backendpb.", "profiledb/internal/filecachepb.", "agdnet.", "geoip."},
 	"C11": {"filter/hashprefix.", "filter/internal.", "dnssvc/internal/preservice.", "filter/internal/refreshable.", "cmd."},
